@@ -1,6 +1,7 @@
 package main
 
 import (
+	"go/constant"
 	"strconv"
 	"go/parser"
 	"fmt"
@@ -525,7 +526,9 @@ func (c *FuncCtx) execRange(fr *frame, n *ast.RangeStmt, st *State, k func(*Stat
 		}
 	}
 	if keyObj == nil {
-		panic(verr("range loop at %s needs a named key variable for its invariant", c.prog.pos(n)))
+		// `for _, v := range s`: the hidden counter gets a synthetic variable (invariants cannot
+		// name it; they may speak about the whole of s)
+		keyObj = types.NewVar(n.Pos(), c.pkg.Types, fmt.Sprintf("range!%d", c.loopOrd[n]), types.Typ[types.Int])
 	}
 	st.declare(keyObj, IntV{ConstI(0)})
 	setVal := func(s *State) {
@@ -829,6 +832,13 @@ func (c *FuncCtx) evalConversion(st *State, n *ast.CallExpr, to types.Type) Valu
 		panic(verr("unsupported conversion to %s at %s", to, c.prog.pos(n)))
 	}
 	if isFloatType(from) {
+		// one exact pattern: T(math.Ceil(float64(e) / 2^k)) for an integer e with 0 <= e < 2^53: both the
+		// conversion and the division by a power of two are exact in float64, so the value is ceil(e / 2^k)
+		if e, d, ok := c.ceilDivPattern(n.Args[0]); ok {
+			x := c.evalInt(st, e)
+			c.oblige(st, "fceil", "range", And(Le(ConstI(0), x), Lt(x, Const(pow2(53)))), n)
+			return IntV{c.named(st, "fceil", Div(Add(x, ConstI(d-1)), ConstI(d)), to)}
+		}
 		// float to integer: not modelled, any value of the target type
 		return IntV{c.freshInt(st, c.freshName("fconv"), to)}
 	}
@@ -2226,4 +2236,39 @@ func (c *FuncCtx) resolveField(st *State, sv *StructV, name string) (*StructV, t
 		}
 	}
 	return nil, nil
+}
+
+// ceilDivPattern: math.Ceil(float64(e) / c) with e of integer type and c a literal power of two.
+func (c *FuncCtx) ceilDivPattern(x ast.Expr) (ast.Expr, int64, bool) {
+	call, ok := stripParens(x).(*ast.CallExpr)
+	if !ok || len(call.Args) != 1 {
+		return nil, 0, false
+	}
+	f, ok := c.calleeObj(call).(*types.Func)
+	if !ok || f.Pkg() == nil || f.Pkg().Path() != "math" || f.Name() != "Ceil" {
+		return nil, 0, false
+	}
+	be, ok := stripParens(call.Args[0]).(*ast.BinaryExpr)
+	if !ok || be.Op != token.QUO {
+		return nil, 0, false
+	}
+	conv, ok := stripParens(be.X).(*ast.CallExpr)
+	if !ok || len(conv.Args) != 1 {
+		return nil, 0, false
+	}
+	if tv, ok := c.info.Types[conv.Fun]; !ok || !tv.IsType() || !isFloatType(tv.Type) {
+		return nil, 0, false
+	}
+	if _, isInt := intKindOf(c.typeOf(conv.Args[0])); !isInt {
+		return nil, 0, false
+	}
+	tv, ok := c.info.Types[be.Y]
+	if !ok || tv.Value == nil {
+		return nil, 0, false
+	}
+	d, exact := constant.Int64Val(constant.ToInt(tv.Value))
+	if !exact || d <= 0 || d&(d-1) != 0 || d > 1<<20 {
+		return nil, 0, false
+	}
+	return conv.Args[0], d, true
 }
